@@ -274,7 +274,7 @@ def handle (op : String) (args : Array String) : Option String :=
           | some a => showKey a
         some (showKey (publicKey sk k t) ++ "\t" ++ sp)
       | _, _, _ => some "bad-op"
-  | "direct_fetch", [n, reqName, direct, notary, _impl] =>
+  | "direct_fetch", [n, reqName, direct, notary, _impl] | "direct_history", [n, reqName, direct, notary, _impl] =>
     match n.toNat?, unhex reqName with
     | some now, some rn =>
       match parseResponses now direct, parseResponses now notary with
@@ -304,7 +304,7 @@ def handle (op : String) (args : Array String) : Option String :=
         some (out ++ "\t" ++ sp)
       | _, _ => some "bad-op"
     | _, _ => some "bad-op"
-  | "perspective_fetch", [n, _notaryName, _known, resps, _impl] =>
+  | "perspective_fetch", [n, _notaryName, _known, resps, _impl] | "perspective_history", [n, _notaryName, _known, resps, _impl] =>
     match n.toNat? with
     | none => some "bad-op"
     | some now =>
